@@ -37,7 +37,8 @@ func init() { core.RegisterProp(&core.Prop{ID: "C22", Run: runC22, Replay: repla
 
 // c22AdvNames: adversarial interface names, one special character each (the derived alphabet already
 // holds "a", "x:y" and `a/b]=\[x`). They are list key values, hence part of every path below the entry.
-var c22AdvNames = []string{"e]1", "e=1", "e[1", "e 1", "e/1", `e\1`, "é✓"}
+// The last three look like path segments that a path-cleaning routine (path.Join / path.Clean) rewrites.
+var c22AdvNames = []string{"e]1", "e=1", "e[1", "e 1", "e/1", `e\1`, "é✓", "e//1", "e/./1", "e/../1"}
 
 // c22Alphabet is the derived atom alphabet of p without the representation-only atoms (empty maps,
 // empty non-nil leaf-lists: no data, hence no request) plus, per adversarial name, an interface entry
